@@ -183,6 +183,32 @@ theorem destroy_cacheInv (w w' : World) (hi : CacheInv w) (i : Nat) (h : w.destr
   · subst hj; exact ⟨fun n l hl => (by rw [hc n] at hl; cases hl), fun _ n => hc n⟩
   · rw [hoth j hj]; exact hi j
 
+/-- A name resolves only in the library the instance is bound to: if that library does not export it the
+lookup aborts, whatever any other library (or the process itself, modelled as one more library) exports; and when
+it resolves, the function belongs to the instance's own library. -/
+theorem C11_resolve_own_library (exports : Nat → String → Bool) (w : World) (hi : CacheInv w) (i : Nat) (name : String) :
+    ((w.sbx i).cache name = none → exports (w.sbx i).lib name = false → w.resolve exports i name = none) ∧
+    (∀ w' l, w.resolve exports i name = some (w', l) → l = (w.sbx i).lib) := by
+  refine ⟨fun hc he => by simp [World.resolve, hc, he], fun w' l h => ?_⟩
+  unfold World.resolve at h
+  cases hc : (w.sbx i).cache name with
+  | some l0 =>
+    simp only [hc] at h
+    cases h
+    exact (hi i).1 name l hc
+  | none =>
+    simp only [hc] at h
+    split at h
+    · have h2 := congrArg Prod.snd (Option.some.inj h)
+      simp only at h2
+      rw [← h2]; exact C11_instance w hi i name
+    · cases h
+
+/-- the answer does not depend on what OTHER libraries export -/
+theorem C11_resolve_ignores_others (e1 e2 : Nat → String → Bool) (w : World) (i : Nat) (name : String)
+    (h : e1 (w.sbx i).lib name = e2 (w.sbx i).lib name) : w.resolve e1 i name = w.resolve e2 i name := by
+  unfold World.resolve; rw [h]
+
 /-- The tainted address of a sandbox function is the backend's function-pointer representation of
 that function in the instance's own library -- it does not depend on whether (or how often) the
 function was invoked before: address lookups use their own cache, filled from the same library. -/
